@@ -753,6 +753,8 @@ fn process_deletions(
         }
 
         entry.record.retire_extent();
+        #[cfg(feoxdb_verif)]
+        crate::verif::sched::point("c08_retire_bit");
         if entry.record.extent_has_readers() {
             retries.push(entry);
             continue;
@@ -782,6 +784,8 @@ fn process_deletions(
         }
     }
 
+    #[cfg(feoxdb_verif)]
+    crate::verif::sched::point("c08_markers_durable");
     let mut releasable = Vec::with_capacity(release_operations.len());
     for entry in release_operations {
         if entry.record.extent_has_readers() {
@@ -1380,7 +1384,14 @@ fn prepare_deferred_record_data(
     }
     let total_size = format.total_size(source.key.len(), source.value_len);
     let sectors = total_size.div_ceil(FEOX_BLOCK_SIZE);
+    #[cfg(feoxdb_verif)]
+    {
+        crate::verif::ext::note("pin", sector, sectors as u64);
+        crate::verif::sched::point("c08_pinned_deferred");
+    }
     let mut data = disk_io.read().read_sectors_sync(sector, sectors as u64)?;
+    #[cfg(feoxdb_verif)]
+    crate::verif::ext::note("unpin", sector, sectors as u64);
     drop(extent);
     if !sector_holds_record(&data, &source) {
         return Err(FeoxError::StaleExtent);
